@@ -427,6 +427,20 @@ func rndMsg(r *rand.Rand, maxEach int) *gMsg {
 			m.blks = append(m.blks, b)
 		}
 	}
+	if maxEach > 1 && r.Intn(3) == 0 {
+		// blocks whose CID prefixes agree in version, codec and hash function and differ only in the
+		// digest length (and blocks that share the whole prefix)
+		codec := codecs[r.Intn(len(codecs))]
+		code := []uint64{mh.SHA2_256, mh.SHA2_512, mh.BLAKE3}[r.Intn(3)]
+		for _, ln := range [][]int{{-1, 20}, {20, -1}, {16, 20, -1}, {-1, -1}}[r.Intn(4)] {
+			data := rndBytes(r, 1+r.Intn(40))
+			c, err := cid.Prefix{Version: 1, Codec: codec, MhType: code, MhLength: ln}.Sum(data)
+			if err == nil && !seen[string(c.Bytes())] {
+				seen[string(c.Bytes())] = true
+				m.blks = append(m.blks, gBlk{c.Bytes(), data})
+			}
+		}
+	}
 	return m
 }
 
@@ -599,20 +613,53 @@ func genStream(r *rand.Rand, w *bufio.Writer, id string) {
 
 func genExtCodecs(r *rand.Rand, w *bufio.Writer, id string) {
 	emit(w, "case %s", id)
-	// do-not-send-cids
+	// do-not-send-cids: the set is a set of FULL CIDs -- members may share the multihash and differ only
+	// in version (CIDv0 / CIDv1) or codec (raw / dag-pb / dag-cbor over the same bytes); duplicates,
+	// the empty set and large sets are generated too
 	n := r.Intn(6)
+	switch r.Intn(8) {
+	case 0:
+		n = 0
+	case 1:
+		n = 40 + r.Intn(200)
+	}
 	var cs []string
 	var pool []cid.Cid
 	for i := 0; i < n; i++ {
-		if len(pool) > 0 && r.Intn(4) == 0 {
+		if len(pool) > 0 && r.Intn(5) == 0 {
 			cs = append(cs, hx(pool[r.Intn(len(pool))].Bytes())) // duplicate
 			continue
 		}
-		c := rndCid(r)
+		var c cid.Cid
+		if len(pool) > 0 && r.Intn(3) == 0 {
+			// same multihash as a member already in the set, other version / codec
+			base := pool[r.Intn(len(pool))]
+			dec, err := mh.Decode(base.Hash())
+			if err == nil && dec.Code == mh.SHA2_256 && dec.Length == 32 && r.Intn(3) == 0 {
+				c = cid.NewCidV0(base.Hash())
+			} else {
+				c = cid.NewCidV1(codecs[r.Intn(len(codecs))], base.Hash())
+			}
+		} else if r.Intn(3) == 0 {
+			sum, _ := mh.Sum(rndBytes(r, 8), mh.SHA2_256, -1)
+			c = cid.NewCidV0(sum)
+		} else {
+			c = rndCid(r)
+		}
 		pool = append(pool, c)
 		cs = append(cs, hx(c.Bytes()))
 	}
 	emit(w, "cidset %d %s", len(cs), strings.Join(cs, " "))
+	{
+		// always: the four spellings of one block in one set
+		sum, _ := mh.Sum(rndBytes(r, 8), mh.SHA2_256, -1)
+		four := []cid.Cid{cid.NewCidV0(sum), cid.NewCidV1(cid.DagProtobuf, sum), cid.NewCidV1(cid.Raw, sum), cid.NewCidV1(cid.DagCBOR, sum)}
+		var hs []string
+		for _, c := range four[:2+r.Intn(3)] {
+			hs = append(hs, hx(c.Bytes()))
+		}
+		emit(w, "cidset %d %s", len(hs), strings.Join(hs, " "))
+	}
 	var dv *V
 	switch r.Intn(4) {
 	case 0:
@@ -1204,6 +1251,30 @@ func GenMut(seed int64, n int, tier string, w *bufio.Writer) {
 			} else {
 				lines = append(lines, "dec "+hx(out))
 			}
+		}
+		if r.Intn(3) == 0 {
+			// malformed BY CONSTRUCTION (CBOR is prefix-free, the frame must hold exactly one item): a
+			// complete valid message followed, inside the same frame, by a zero byte / garbage / a whole
+			// second message. The decoder must refuse it (oracle class malformed-accepted).
+			payload := frame[hl:]
+			var extra []byte
+			switch r.Intn(4) {
+			case 0:
+				extra = []byte{0}
+			case 1:
+				extra = rndBytes(r, 1+r.Intn(8))
+			case 2:
+				extra = payload // the same message again, smuggled into the frame
+			default:
+				var other []byte
+				for other == nil {
+					other = goBytes(smallMsg(r).toks(), false)
+				}
+				_, ol := binary.Uvarint(other)
+				extra = other[ol:]
+			}
+			kinds = append(kinds, "trailing-in-frame")
+			lines = append(lines, "decbad "+hx(frameOf(append(append([]byte{}, payload...), extra...))))
 		}
 		emit(w, "case m%d %s", i, strings.Join(kinds, ","))
 		for _, h := range m.hints() {
